@@ -72,10 +72,10 @@ def run(ctx):
               "hashseed": (("1", "12345", "random", "7") if k % 2 else ("0", "1", "12345", "random"))[(k // 2) % 4]} for k in range(n)]
     validate(ctx, progs, "fresh interpreters with PYTHONHASHSEED 0 / 1 / 12345 / random vs. the reference run", isolated=True)
     n = 8 if q else 60
-    progs = [{"config": rng.choice(D.CONFIGS), "seed": rng.randint(0, 10 ** 6), "schedule": [["A", 1]] * (3 + k % 3), "where": "search",
+    progs = [{"config": rng.choice(D.DIRECT), "seed": rng.randint(0, 10 ** 6), "schedule": [["A", 1]] * (3 + k % 3), "where": "search",
               "procs": 1 + k % 2} for k in range(n)]
     validate(ctx, progs, "three repetitions of the same seed inside grid_search (1 and 2 processes) vs. the reference run: trajectory digests",
              isolated=True, tamper=False)
-    progs = [{"config": rng.choice(D.CONFIGS), "seed": rng.randint(0, 10 ** 6), "schedule": [["A", 1]] * (4 + k % 2), "where": "worker"}
+    progs = [{"config": rng.choice(D.DIRECT), "seed": rng.randint(0, 10 ** 6), "schedule": [["A", 1]] * (4 + k % 2), "where": "worker"}
              for k in range(n)]
     validate(ctx, progs, "execution inside batch_run worker processes (2 processes, 2 repetitions) vs. the reference run", isolated=True)
